@@ -46,6 +46,8 @@ impl<'a> Pp<'a> {
         &&& (self.cur_directive is Some ==> self.cur_directive->Some_0.args@.len() >= 1)
         // the line that ended a directive is only kept while no directive is open
         &&& (self.execute_tail_line is Some ==> self.cur_directive is None)
+        // the tag store's representation invariant (C14: stored names pairwise prefix-free), see spec/tags_wf.rs
+        &&& tag_wf(tsv(&self.tag_state))
     }
 
     pub closed spec fn cur_v(&self) -> Option<DView> { opt_dview(self.cur_directive) }
